@@ -159,6 +159,40 @@ impl<C: Cursor> BoundsCursor<C> {
 //@ end
 }
 
+// `key.as_ref()` yields the bytes of the key (AsRef is an external trait; ASSUMED, rule X7)
+uninterp spec fn bytes_of<T>(t: T) -> Seq<u8>;
+spec fn sb_of<T>(b: Bound<T>) -> SB {
+    match b { Bound::Unbounded => SB::Unbounded, Bound::Included(x) => SB::Incl(bytes_of(x)), Bound::Excluded(x) => SB::Excl(bytes_of(x)) }
+}
+//@ extract sst/src/bounds_cursor.rs | impl BoundsCursor<C> :: fn new :: fn as_ref_to_vec
+//@ prefix #[verifier::allow(undeclared_external_trait)]
+//@ ret r
+//@ post <<
+        sb_vec(r) == sb_of(*b),
+//@ >>
+//@ external-body
+//@ end
+
+// the entries of s whose keys lie within the bounds (a contiguous run, s being sorted)
+spec fn restricted(s: Seq<Ent>, lo: SB, hi: SB) -> Seq<Ent> {
+    if hi_of(s, hi) > lo_of(s, lo) { s.subrange(lo_of(s, lo), hi_of(s, hi)) } else { Seq::<Ent>::empty() }
+}
+impl<C: Cursor> BoundsCursor<C> {
+    // the constructor: the nested helper above is hoisted out of the body (X14), nothing else changes
+//@ extract sst/src/bounds_cursor.rs | impl BoundsCursor<C> :: fn new
+//@ prefix #[verifier::allow(undeclared_external_trait)]
+//@ ret r
+//@ rewrite-re X14 `(?s)fn as_ref_to_vec<U: AsRef<\[u8\]>>\(b: &Bound<U>\) -> Bound<Vec<u8>> \{.*?\n        \}\n` => ``
+//@ pre <<
+        cursor.wf_base(),
+//@ >>
+//@ post <<
+        r is Ok ==> r->Ok_0.wf() && r->Ok_0.pos() == -1
+            && r->Ok_0.ents() == restricted(cursor.ents(), sb_of(*start_bound), sb_of(*end_bound)),
+//@ >>
+//@ end
+}
+
 impl<C: Cursor> Cursor for BoundsCursor<C> {
     spec fn ents(&self) -> Seq<Ent> {
         if self.hi() > self.lo() { self.cursor.ents().subrange(self.lo(), self.hi()) } else { Seq::<Ent>::empty() }
